@@ -1089,6 +1089,10 @@ class HookInterp(Interp):
 
     def call_hook(self, ctx: Ctx, e: ast.Call, env, fi):
         # converter.structure(x, C)
+        if isinstance(e.func, ast.Attribute) and e.func.attr == "structure" and len(e.args) == 2 and not e.keywords and ctx.ghost.get("try_depth", 0) > 0:
+            # the obligations treat a nested structure call as returning; inside a `try` with handlers its failure is part of the hook's
+            # control flow (fallback to another alternative, custom value): not modelled - the bounded stand-in decides this hook
+            raise Unsupported("converter.structure inside a try block with handlers (its exceptions steer the hook)")
         if isinstance(e.func, ast.Attribute) and e.func.attr == "structure" and len(e.args) == 2 and not e.keywords:
             recv = self.eval(ctx, e.func.value, env, fi)
             if isinstance(recv, VOpaque) and recv.name == "converter":
